@@ -11,20 +11,20 @@ Local Open Scope R_scope.
     to) are empty or coherent with the current leaf values, every assignment of leaf values in which
     all assigned leaf points have [n] coordinates: whatever [eval] returns is the same linear /
     bilinear combination of the values of the operands, read in the inner-product space R^n
-    ([means]: evalP for points, evalE for expressions / constraints / every LMI entry).  Objects built
-    after the solve are just more entries of the store.  Guard (F-C02a): for a derived point, no leaf
-    point was created since the solve ([length (lpv st) = n]). *)
+    ([means]: evalP for points -- coordinate by coordinate, and [n] coordinates unless the combination
+    is empty --, evalE for expressions / constraints / every LMI entry).  Objects built after the solve
+    are just more entries of the store.  Since the repair e997f00 there is NO guard on the class
+    counter: leaf points created after the solve do not matter. *)
 Theorem C02_eval_hom :
   forall n st r o st' v,
     solved n st -> get_obj st r = Some o -> good (length (lpv st)) st r ->
-    (forall d, okind_of o = KPoint d -> length (lpv st) = n) ->
     eval_obj st r = (st', Ok v) -> means n st (okind_of o) v.
 Proof. exact eval_hom. Qed.
 
 (** ... and it does return a value as soon as every leaf the object mentions has one. *)
 Theorem C02_eval_total :
   forall n st r o,
-    solved n st -> get_obj st r = Some o -> good (length (lpv st)) st r -> length (lpv st) = n ->
+    solved n st -> get_obj st r = Some o -> good (length (lpv st)) st r ->
     assigned st (okind_of o) -> exists v, snd (eval_obj st r) = Ok v.
 Proof. exact eval_total. Qed.
 
@@ -36,12 +36,31 @@ Proof. exact clean_good. Qed.
 Theorem C02_eval_frame : forall st r st' x, eval_obj st r = (st', x) -> frame st st'.
 Proof. exact eval_obj_frame. Qed.
 
-(** F-C02a: without the guard the statement is false on a reachable state *)
-Theorem C02_eval_hom_refuted :
-  exists st r o, st = es (final (removelast c02a_prog)) /\ get_obj st r = Some o /\
-    solved 2 st /\ clean st r /\ assigned st (okind_of o) /\
-    snd (eval_obj st r) = Raise EShape.
-Proof. exact eval_hom_refuted. Qed.
+(** F-C02b (the narrow remainder of F-C02a): the EMPTY combination ([x - x], ...) evaluates to
+    [np.zeros(Point.counter)] with the CURRENT class counter ... *)
+Theorem C02_empty_point_value :
+  forall st r o st' x,
+    get_obj st r = Some o -> okind_of o = KPoint [] -> ocache o = None ->
+    eval_obj st r = (st', x) -> x = Ok (VVec (repeat 0%Q (length (lpv st)))).
+Proof. exact empty_point_value. Qed.
+
+(** ... so that, on a reachable state (solve with 2 leaf points, then one more leaf point), it has 3
+    coordinates while [x0 - x1], not evaluated before either, has the 2 coordinates of the instance
+    (and no error: the trigger of the repaired F-C02a). *)
+Theorem C02_empty_point_length_refuted :
+  let st := es (final c02b_prog) in
+  solved 2 st /\ clean st 0 /\ clean st 1
+  /\ snd (eval_obj st 1) = Ok (VVec [1%Q; (-1)%Q])
+  /\ snd (eval_obj st 0) = Ok (VVec [0%Q; 0%Q; 0%Q]).
+Proof. exact empty_point_length_refuted. Qed.
+
+(** Regression Example about the OLD formula (before e997f00; [old_point_compute] is NOT the model): it
+    raised on the state on which the repaired evaluation returns the combination. *)
+Example C02_old_formula_regression :
+  let st := es (final c02b_prog) in
+  old_point_compute st [(0%nat, 1%Q); (1%nat, (-1)%Q)] = Raise EShape
+  /\ point_compute (length (lpv st)) st [(0%nat, 1%Q); (1%nat, (-1)%Q)] = Ok [1%Q; (-1)%Q].
+Proof. split; vm_compute; reflexivity. Qed.
 
 (** If the leaf vectors reproduce [Gp] (the PSD projection of the solver's Gram matrix: numpy's
     eigh / clipping / QR are trusted for this and MEASURED by the harness on every solve), every
@@ -127,7 +146,8 @@ Print Assumptions C02_eval_hom.
 Print Assumptions C02_eval_total.
 Print Assumptions C02_clean_is_good.
 Print Assumptions C02_eval_frame.
-Print Assumptions C02_eval_hom_refuted.
+Print Assumptions C02_empty_point_value.
+Print Assumptions C02_empty_point_length_refuted.
 Print Assumptions C02_gram_reading.
 Print Assumptions C02_gram_reading_holds.
 Print Assumptions C02_objective_is_min.
